@@ -133,10 +133,11 @@ def build_coq(clean=False):
             sh("make clean >/dev/null 2>&1; find . -name '*.vo' -o -name '*.glob' -o -name '*.vok' -o -name '*.vos' | xargs rm -f",
                cwd=COQ, check=False)
         t0 = time.time()
-        p = sh("timeout 3000 make -j16", cwd=COQ, check=False)
-        if p.returncode != 0:
-            raise BuildError("Coq build failed:\n" + p.stdout[-6000:])
-        return time.time() - t0
+        p = sh("timeout 3000 make -k -j16", cwd=COQ, check=False)
+        # A file that does not compile is only fatal for the properties that depend on it: compile_prop()
+        # fails for exactly those (their .vo prerequisites are missing).  The log is kept for the evidence.
+        open(os.path.join(BUILD, "coq_build.log"), "w").write(p.stdout or "")
+        return p.returncode == 0, (p.stdout or "")[-3000:]
 
 
 def coq_flags():
@@ -150,7 +151,7 @@ def compile_prop(pid):
     """Compile theories/props/<pid>.v on its own, capture Print Assumptions output.
     Returns dict(theorems=[...], axioms=set(...), closed=int, ok=bool, log=str)."""
     src = os.path.join(PROPS, pid + ".v")
-    with Lock("prop_" + pid):
+    with Lock("coq"):
         p = sh(["timeout", "900", "coqc"] + coq_flags() + [os.path.relpath(src, COQ)], cwd=COQ, check=False)
     out = p.stdout or ""
     txt = open(src).read()
@@ -177,13 +178,16 @@ def compile_prop(pid):
 # OCaml model driver (extracted model + hand-written line parser/printer)
 # ---------------------------------------------------------------------------------------------
 
-def build_driver():
-    """Extract the model (ExtrOcamlBasic only) and build the driver binary."""
-    with Lock("ocaml"):
-        odir = os.path.join(BUILD, "ocaml")
+def build_driver(layer):
+    """Extract the layer's model (coq/extract/<layer>.v, ExtrOcamlBasic only) and build its driver binary
+    (_build/ocaml/<layer>/driver) from ocaml/vutil.ml + ocaml/drv_<layer>.ml."""
+    with Lock("coq"):
+        odir = os.path.join(BUILD, "ocaml", layer)
         os.makedirs(odir, exist_ok=True)
-        ext = os.path.join(COQ, "extract", "Extract.v")
-        deps = [ext] + glob.glob(os.path.join(OCAML, "*.ml")) + glob.glob(os.path.join(THEORIES, "*.vo"))
+        ext = os.path.join(COQ, "extract", layer + ".v")
+        drv = os.path.join(OCAML, "drv_%s.ml" % layer)
+        deps = [ext, drv, os.path.join(OCAML, "vutil.ml")] + glob.glob(os.path.join(THEORIES, "*.vo")) \
+            + glob.glob(os.path.join(COQ, "gen", "*.vo"))
         h = hashlib.sha256()
         for d in sorted(deps):
             h.update(d.encode())
@@ -196,20 +200,28 @@ def build_driver():
             if os.path.isfile(f):
                 os.remove(f)
         shutil.copy(ext, os.path.join(odir, "Extract.v"))
-        sh(["timeout", "900", "coqc", "-Q", os.path.join(COQ, "theories"), "Burrow", "Extract.v"], cwd=odir)
-        mls = ["vutil.ml"] + sorted(os.path.basename(f) for f in glob.glob(os.path.join(OCAML, "drv_*.ml"))) + ["main.ml"]
-        for f in glob.glob(os.path.join(OCAML, "*.ml")):
-            shutil.copy(f, odir)
-        sh(["ocamlfind", "ocamlopt", "-w", "-a", "-O2" if False else "-inline", "50", "-package", "zarith", "-linkpkg",
-            "model.mli", "model.ml"] + mls + ["-o", "driver"], cwd=odir, timeout=900)
+        fl = ["-Q", os.path.join(COQ, "theories"), "Burrow"]
+        if glob.glob(os.path.join(COQ, "gen", "*.vo")):
+            fl += ["-Q", os.path.join(COQ, "gen"), "BurrowGen"]
+        sh(["timeout", "900", "coqc"] + fl + ["Extract.v"], cwd=odir)
+        shutil.copy(os.path.join(OCAML, "vutil.ml"), odir)
+        shutil.copy(drv, odir)
+        mod = "Drv_" + layer
+        open(os.path.join(odir, "main.ml"), "w").write(
+            "let () =\n  let path = Sys.argv.(1) in\n"
+            "  List.iter (fun l -> if String.trim l <> \"\" then\n"
+            "    print_endline (try %s.run l with e -> \"DRIVER-ERROR \" ^ Printexc.to_string e))\n"
+            "    (Vutil.read_lines path)\n" % mod)
+        sh(["ocamlfind", "ocamlopt", "-w", "-a", "-inline", "50", "-package", "zarith", "-linkpkg",
+            "model.mli", "model.ml", "vutil.ml", "drv_%s.ml" % layer, "main.ml", "-o", "driver"], cwd=odir, timeout=900)
         open(stamp, "w").write(h.hexdigest())
         return binp
 
 
 def run_model(layer, cases_path, out_path, timeout=1800):
-    drv = build_driver()
+    drv = build_driver(layer)
     with open(out_path, "w") as o:
-        p = subprocess.run([drv, layer, cases_path], stdout=o, stderr=subprocess.PIPE, text=True, timeout=timeout)
+        p = subprocess.run([drv, cases_path], stdout=o, stderr=subprocess.PIPE, text=True, timeout=timeout)
     if p.returncode != 0:
         raise BuildError("model driver failed on %s: %s" % (layer, p.stderr[-3000:]))
 
